@@ -13,6 +13,8 @@ TRUSTED = ['construct 2.10 primitives re-implemented in Model/Construct.lean fro
            'v2, v2-malformed, v2-seq, v2-kevents (events, tables and outcome kind must agree; the read counters are compared in C06)',
            'file grammar Spec/ContainerV2.encodeV2 (diffed byte for byte against the harness encoder, section encv2)',
            'from_kd_buf as proved in C01 (decode_eq_spec / decode_rejects_other_lengths)']
+from .. import rdir as _rdir  # noqa: E402
+TRUSTED = TRUSTED + [_rdir.TRUSTED]
 ASSUMPTIONS = ['bytes objects hold values 0..255 (IsBytes)',
                'thread names are modelled as their UTF-8 bytes (str.decode is injective on valid UTF-8); UTF-8 validity is '
                'Model/Construct.validUtf8, tied to CPython by section utf8',
@@ -311,6 +313,8 @@ def impl_utf8(h):
 
 
 def correspondence(rep, rng, tier):
+    from .. import rdir
+    rdir.enable(rep)
     quick = tier == 'quick'
     from .. import pipeline as _PL
     _PL.section_e2e(rep, rng, tier, n=(120 if quick else 3000), plain=0.7)
@@ -410,9 +414,11 @@ LEVEL_TEXT = ('Lean theorems over the reader/construct model of parse_v2 for ALL
               'records, no container exception), e2e_threadmap_of_encoded (thread map half without the K1 hypothesis), '
               'e2e_lines_of_encoded (lines of the file\'s bytes = line builder over traces of thread map + decoded records, '
               'only the trace layer\'s exception); the model is tied to the code by differential runs on generated '
-              'files, malformed files, parse sequences and the public kevents() entry point, including read counters.')
+              'files, malformed files, parse sequences and the public kevents() entry point, including read counters.'
+              " TRANSLATION TIE: the source text of parse / parse_v2 / parse_v3 (to the end of its chunk loop) / seek_until / set_thread_map is translated on every run (tools/gen_pyir_rd.py, pure ast) into the Python-subset IR of Model/PyIRRd (statements over the model's reader: read, while/for/break/raise/yield, bytes slices and comparisons, construct parsers as primitives; big-step interpreter); source_is_expected_ir: the generated program is the one of Spec/PyIRRdExpected; parse_is_interpreted_source: for EVERY byte string and prior state the model's parse IS that program run by the interpreter (+ the hand-modelled tail of parse_v3), with the same read calls; per piece: set_thread_map_ir_eq_model, parse_dispatch_ir_eq_model, parse_v2_ir_eq_model.")
 LEVEL_NOTE = ('Partial: v2_events_partial carries the hypothesis "no records, or first record byte != 0" — without it the real '
               'code loses or misaligns records (known finding K1, reproduced on model and code every run). Trusted: Lean kernel, '
               'Model/Construct + Model/Reader as models of construct/BytesIO (diffed, not verified), Spec.encodeV2 as the meaning '
-              'of "version-2 dump".')
-TECHNIQUE = 'Lean 4 proof (parser/encoder round trip) + differential correspondence'
+              'of "version-2 dump".'
+              ' The hand model of the readers is no longer trusted by itself: it is proved equal to the interpreted source (trusted instead: translator tools/gen_pyir_rd.py and interpreter Model/PyIRRd, both tested against CPython by the sections *-ir; the construct parsers as primitives; the tail of parse_v3).')
+TECHNIQUE = 'Lean 4 proof (parser/encoder round trip) + differential correspondence + translation validation (source text -> IR, proved equal to the model)'
